@@ -107,6 +107,7 @@ pub struct StreamSt {
     pub dropped: bool,
     pub polls: u64,
     pub taken: u64,
+    pub waker: vnet::WakeSlot,
 }
 pub type StreamRef = Rc<RefCell<StreamSt>>;
 
@@ -119,7 +120,7 @@ pub struct CtlStream {
 
 impl Stream for CtlStream {
     type Item = Reply<Item>;
-    fn poll_next(self: Pin<&mut Self>, _cx: &mut Context<'_>) -> Poll<Option<Self::Item>> {
+    fn poll_next(self: Pin<&mut Self>, cx: &mut Context<'_>) -> Poll<Option<Self::Item>> {
         let mut st = self.st.borrow_mut();
         st.polls += 1;
         if let Some((n, c)) = st.queue.pop_front() {
@@ -131,6 +132,7 @@ impl Stream for CtlStream {
         if st.closed {
             Poll::Ready(None)
         } else {
+            st.waker.register(cx);
             Poll::Pending
         }
     }
@@ -250,6 +252,9 @@ pub struct ConnCfg {
 pub struct WorldCfg {
     pub conns: Vec<ConnCfg>,
     pub steps: Vec<Step>,
+    /// Wake-driven execution: after its first poll the server future is polled again only when the
+    /// waker it was given has fired (as a runtime would), instead of "until nothing changes".
+    pub wake: bool,
 }
 
 #[derive(Debug, Clone, PartialEq)]
@@ -314,7 +319,7 @@ impl Shared {
             Ev::Accept(c) => {
                 if !self.released[*c] {
                     self.released[*c] = true;
-                    self.listener.borrow_mut().pending.push_back(self.wires[*c].clone());
+                    self.listener.borrow_mut().release(self.wires[*c].clone());
                 }
             }
             Ev::Deliver(c) => {
@@ -331,10 +336,14 @@ impl Shared {
                 let mut st = st.borrow_mut();
                 if !st.closed {
                     st.queue.push_back((*n, *continues));
+                    st.waker.fire();
                 }
             }
             Ev::Close { client, seq } => {
-                self.stream(*client, *seq).borrow_mut().closed = true;
+                let st = self.stream(*client, *seq);
+                let mut st = st.borrow_mut();
+                st.closed = true;
+                st.waker.fire();
             }
             Ev::Multi(v) => {
                 for e in v {
@@ -412,6 +421,8 @@ pub struct WorldOut {
     pub streams: BTreeMap<(u32, u32), (bool, bool, u64, usize)>, // attached, dropped, taken, left in queue
     pub warns: Vec<String>,
     pub total_polls: usize,
+    /// wake-driven mode: number of times the server's waker fired
+    pub wakes: u64,
 }
 
 fn progress_sig(sh: &Shared) -> (usize, usize, usize, usize, u64, usize, usize) {
@@ -467,10 +478,19 @@ pub fn run_world(cfg: &WorldCfg) -> WorldOut {
     let _ = vnet::trace::take();
     let server = Server::new(listener, Svc { sh: sh.clone(), last: String::new() });
     let mut out = WorldOut::default();
+    let flag = vnet::WakeFlag::new();
     {
         let fut = server.run();
         let mut fut = core::pin::pin!(fut);
         let mut done = false;
+        if cfg.wake {
+            // the runtime polls a freshly spawned task once
+            out.total_polls += 1;
+            if let Poll::Ready(r) = flag.poll(fut.as_mut()) {
+                out.server_exit = Some(format!("{r:?}"));
+                done = true;
+            }
+        }
         loop {
             let step = {
                 let mut s = sh.borrow_mut();
@@ -489,7 +509,22 @@ pub fn run_world(cfg: &WorldCfg) -> WorldOut {
             }
             // poll to quiescence
             let mut polls = 0;
-            if !done {
+            if !done && cfg.wake {
+                // a runtime polls the task again exactly when its waker has fired
+                while flag.is_set() {
+                    polls += 1;
+                    out.total_polls += 1;
+                    if let Poll::Ready(r) = flag.poll(fut.as_mut()) {
+                        out.server_exit = Some(format!("{r:?}"));
+                        done = true;
+                        break;
+                    }
+                    if polls > 10_000 {
+                        out.no_quiescence = true;
+                        break;
+                    }
+                }
+            } else if !done {
                 loop {
                     let before = progress_sig(&sh.borrow());
                     polls += 1;
@@ -536,6 +571,7 @@ pub fn run_world(cfg: &WorldCfg) -> WorldOut {
     }
     // the server future (and with it every connection) is dropped here
     let s = sh.borrow();
+    let flag_wakes = flag.wakes.load(std::sync::atomic::Ordering::SeqCst);
     for w in &s.wires {
         let w = w.borrow();
         out.writes.push(w.writes.clone());
@@ -544,6 +580,7 @@ pub fn run_world(cfg: &WorldCfg) -> WorldOut {
     }
     out.log = s.log.clone();
     out.applied = s.applied.clone();
+    out.wakes = flag_wakes;
     out.warns = vnet::trace::take().into_iter().map(|(_, s)| s).collect();
     out
 }
@@ -746,6 +783,8 @@ impl ConnScn {
 pub struct Scenario {
     pub conns: Vec<ConnScn>,
     pub steps: Vec<Step>,
+    /// run wake-driven (see `WorldCfg::wake`)
+    pub wake: bool,
 }
 
 pub fn hexs(b: &[u8]) -> String {
@@ -765,6 +804,7 @@ impl Scenario {
                 .map(|(i, c)| ConnCfg { chunks: c.chunks(i as u32), fail_write_at: c.fail_write_at, write_pending_polls: c.write_pending_polls, read_err_kind: c.read_err_kind })
                 .collect(),
             steps: self.steps.clone(),
+            wake: self.wake,
         }
     }
 
@@ -778,6 +818,7 @@ impl Scenario {
                 "cuts": c.cuts, "fail_write_at": c.fail_write_at, "wpp": c.write_pending_polls, "faulty": c.faulty, "rek": c.read_err_kind,
             })).collect::<Vec<_>>(),
             "steps": steps_json(&self.steps),
+            "wake": self.wake,
         })
     }
 
@@ -799,6 +840,7 @@ impl Scenario {
                 read_err_kind: c["rek"].as_u64().unwrap_or(0) as u8,
             }).collect(),
             steps: steps_from_json(&v["steps"]),
+            wake: v["wake"].as_bool().unwrap_or(false),
         }
     }
 
@@ -812,11 +854,17 @@ impl Scenario {
             h = vnet::fnv_mix(h, c.fail_write_at.map_or(u64::MAX, |x| x as u64));
             h = vnet::fnv_mix(h, c.write_pending_polls as u64 + ((c.read_err_kind as u64) << 8));
         }
+        if self.wake {
+            h = vnet::fnv_mix(h, 0x77616b65);
+        }
         vnet::fnv_mix(h, vnet::fnv(format!("{:?}", self.steps).as_bytes()))
     }
 
     pub fn describe(&self) -> String {
         let mut s = String::new();
+        if self.wake {
+            s.push_str("[wake-driven] ");
+        }
         for (i, c) in self.conns.iter().enumerate() {
             s.push_str(&format!(
                 "conn{i}{}: {} cuts={:?}{}{}; ",
